@@ -648,6 +648,20 @@ func (eng *Engine) replay(ob *Obligation) *replayResult {
 				relevant = true
 			}
 		}
+		// a model that fixes what an assumed, uninterpreted outside function returns (mux.Vars, a cache lookup, ...)
+		// describes an environment the harness cannot impose: the run on the other inputs is not that execution
+		if relevant && ex != nil {
+			for _, c := range ex.eng.cs.Contracts {
+				if c.Kind != "assume" || !c.Getter {
+					continue
+				}
+				nm := c.Func[strings.LastIndexByte(c.Func, '.')+1:]
+				if strings.Contains(ob.Text, "."+nm+"(") {
+					res.Detail = "the clause speaks of " + c.Func + ", an assumed outside function whose value in the model the harness cannot impose: not confirmed"
+					return res
+				}
+			}
+		}
 		if !relevant {
 			res.Detail = "the outputs the harness can observe are not the ones the failed clause speaks of (pointers, interfaces or ghost state): not confirmed"
 			return res
